@@ -223,3 +223,36 @@ def z3_identity_holds(goal):
         if not ok or divs:
             return False
     return True
+
+
+def debug_residual(lhs, rhs, hyps=()):
+    cv = Converter()
+    try:
+        n1, d1 = cv.conv(lhs)
+        n2, d2 = cv.conv(rhs)
+        num = n1 * d2 - n2 * d1
+    except TooBig:
+        print("RINGNF: too big")
+        return
+    print(f"RINGNF residual: {len(num.t)} monomials over {len(cv.atom_terms)} atoms")
+    for i, t in enumerate(cv.atom_terms):
+        print(f"   atom {i}: {str(t)[:150]}")
+    for m, cf in list(num.t.items())[:8]:
+        print("   ", cf, m)
+    print("   hyps:", [str(h)[:100] for h in list(hyps)[-12:]])
+
+
+def residual_atoms(lhs, rhs):
+    """atoms occurring in the non-zero residual numerator of lhs - rhs"""
+    cv = Converter()
+    try:
+        n1, d1 = cv.conv(lhs)
+        n2, d2 = cv.conv(rhs)
+        num = n1 * d2 - n2 * d1
+    except TooBig:
+        return []
+    used = set()
+    for m in num.t:
+        for v, _ in m:
+            used.add(v)
+    return [cv.atom_terms[v] for v in sorted(used)]
